@@ -774,8 +774,8 @@ func c13Copy(c *Ctx, ix *PkgIndex, xc xformCopy) []string {
 		// negative form: from the loop body head, the loop head / exit is reachable without an append only across an allowed skip edge
 		var body *GNode
 		for b, h := range g.head {
-			if k := b.Kind.String(); (k == "RangeBody" || k == "ForBody") && b.Stmt != nil && b.Stmt.Pos() <= x.N.Pos() && x.N.End() <= b.Stmt.End() {
-				if body == nil || b.Stmt.Pos() > body.Blk.Stmt.Pos() {
+			if k := b.Kind.String(); (k == "RangeBody" || k == "ForBody") && b.Stmt != nil && containsNoLit(b.Stmt, x.N) {
+				if body == nil || nodeCount(b.Stmt) < nodeCount(body.Blk.Stmt) {
 					body = h
 				}
 			}
